@@ -71,7 +71,14 @@ def _cq_op(op):
 
 
 def generate(ctx):
-    pass
+    """The message templates, verbs and hints behind C02_conflict_text_order_independent are those of
+    C08's translator: re-read workflow.py and rewrite gen/GenClaims.v (fail-closed, same text as C08
+    writes; a changed template shows up as a gen/golden difference and, when it breaks the symmetry
+    of a message, as a broken obligation of props/C02.v)."""
+    from translator import gen_claims
+    text, facts = gen_claims.generate()
+    ctx.write_gen("GenClaims.v", text)
+    ctx.stats["claims_skeletons"] = facts.get("skeletons")
 
 
 # ---------------------------------------------------------------------------------------------
@@ -461,6 +468,14 @@ def _e3_schedules(ctx):
         ctx.count(f"e3:max_running={r['max_running']}")
         for c in r["meta"].get("conflicts", []):
             ctx.count(f"e3:seeded:{c[0]}")
+        # distribution of the schedule settings (job count, resource pool, duration ranks)
+        for sdesc in r.get("settings", []):
+            ctx.count("e3:setting:" + sdesc)
+        if "resource_steps" in r["meta"]:
+            ctx.count(f"e3:steps-demanding-a-token={min(r['meta']['resource_steps'], 3)}{'+' if r['meta']['resource_steps'] > 3 else ''}")
+        for n, mr in (r.get("running_by_schedule") or {}).items():
+            if n == "res" and mr is not None:
+                ctx.count(f"e3:one-token-pool:max_running={mr}")
         if r["item"][0] == "rerun":
             ctx.count("e3:rerun:" + ("a worker was deferred in some schedule" if r["meta"]["deferred_somewhere"]
                                      else "no defer"))
